@@ -33,6 +33,14 @@ def _run_task(t):
 def run(ctx: core.Ctx, tasks, procs=None, label=""):
     """tasks: list of vc.Case / zero-arg callables returning (records, stats).  Books everything into ctx."""
     t0 = time.time()
+    if "interpreter_semantics_selftest" not in ctx.selfcheck:
+        # Python / numpy semantics where a naive model goes wrong (one-shot iterators, late-binding closures, fixed-width wrap-around, numpy booleans):
+        # the interpreter must agree with CPython or refuse; any other value is a defect of the checker, not of the repository
+        from .pyvc import semantics_selftest
+        agree, refused, problems = semantics_selftest.run()
+        ctx.selfcheck["interpreter_semantics_selftest"] = {"agree_with_cpython": agree, "refused_as_unsupported": refused, "problems": problems}
+        if problems:
+            raise core.CheckerError("interpreter semantics self-test failed: " + "; ".join(problems[:3]))
     results = core.pmap(_run_task, tasks, chunks=1, procs=procs)
     canaries = ctx.selfcheck.setdefault("canaries", {"refuted_and_replayed": 0, "failed": []})
     interp_stats = ctx.extra.setdefault("interpreter", {"cases": 0, "statements_interpreted": 0, "feasibility_queries": 0, "interp_time_s": 0.0})
@@ -102,6 +110,10 @@ PYVC_ASSUMPTIONS = [
     "^ & | + * % == !=, .T .copy .astype .reshape .transpose .fill, basic/fancy indexing) are assumed faithful; they are exercised "
     "on every run by canaries and by the differential self-test (interpreter vs CPython on random concrete inputs)",
     "copy.deepcopy(array) = array.copy(); itertools.product enumerates all tuples once (assumed stdlib contracts)",
+    "zip/map/filter/enumerate/reversed/generator expressions are one-shot iterator objects whose elements are computed eagerly; they may be consumed once, under the path "
+    "condition they were created under; closures are checked for late binding at every call; elementwise arithmetic on fixed-width integer arrays is refused when a result "
+    "could leave the dtype's range; sums of two symbolic booleans are refused (Python int vs numpy logical semantics); numpy SCALAR arithmetic on elements read from "
+    "fixed-width arrays is modelled as mathematical integers (unchecked)",
     "termination is not proved beyond the loop unwinding assertions",
 ]
 PYVC_TRUST = ["pyvc symbolic interpreter + VC generator (hv/pyvc)", "ANF normal form back end (hv/pyvc/expr.py)", "z3 5.1 (python API)", "cvc5 1.0.3 (/usr/bin/cvc5) on z3 'unknown'"]
